@@ -19,7 +19,7 @@ ASSUMPTIONS = [
     "shortcut (hash_only without with_unchanged): reported subset of the reference, every hidden key below a directory entry with equal truthy hash on both sides, and no hidden key is a file entry; hidden representational differences of sub-directory entries are counted",
 ]
 MONITORS = "multiset of (key, type) reported by diff() vs flat reference; rename pair validity and maximality; self-diff / swap / conservation relations on the implementation's own outputs"
-REQUIRED_COUNTERS = ["two_handle_diffs", "inplace_history_diffs", "inplace_adds_through_new_directories", "unknown_directory_diffs", "keys_reported_unknown", "meta_cmp_key_projecting_to_none_diffs", "diffs", "with_renames_diffs", "renames_seen", "shortcut_diffs", "shortcut_branches_skipped", "kind_change_pairs",
+REQUIRED_COUNTERS = ["two_handle_diffs", "inplace_history_diffs", "inplace_adds_through_new_directories", "unknown_directory_diffs", "unknown_diff_outside_keys_judged", "keys_reported_unknown", "meta_cmp_key_projecting_to_none_diffs", "diffs", "with_renames_diffs", "renames_seen", "shortcut_diffs", "shortcut_branches_skipped", "kind_change_pairs",
                      "diffs_before_and_after_the_storage_is_attached", "self_diffs", "swap_relations", "one_side_none", "shallow_diffs", "roots_diffs", "changes_classified", "meta_cmp_key_diffs"]
 
 ADD, MODIFY, RENAME, DELETE, UNCHANGED = "add", "modify", "rename", "delete", "unchanged"
@@ -512,6 +512,17 @@ def run_shard(ctx):
             broken.storage_map.add_cache(ObjectStorage((), odb))
             broken[(top,)] = DataIndexEntry(key=(top,), meta=Meta(isdir=True), hash_info=HashInfo("md5", "%032x.dir" % rng.getrandbits(64)))
             broken[("plain",)] = DataIndexEntry(key=("plain",), meta=Meta(size=rng.choice([3, 4])), hash_info=HashInfo("md5", "%032x" % rng.choice([7, 8])))
+            # siblings on both sides of the unloadable directory in iteration order (a file and an explicit directory each), differing or not
+            outside = {}
+            for sib in ("!" + top, "~" + top):
+                for k in ((sib,), (sib + "-d", "x"), (sib + "-d", "y", "z")):
+                    hs = [rng.choice([11, 12]) for _ in range(2)]
+                    if rng.random() < 0.2:
+                        hs[rng.randrange(2)] = None  # one-sided
+                    for ix, h in zip((full, broken), hs):
+                        if h is not None:
+                            ix[k] = DataIndexEntry(key=k, meta=Meta(size=h), hash_info=HashInfo("md5", "%032x" % h))
+                    outside[k] = tuple(hs)  # (in full, in broken)
             broken_side = rng.choice(["old", "new"])
             modes = {"default": {}, "hash_only": {"hash_only": True, "with_unchanged": True}, "meta_only": {"meta_only": True},
                      "hash_only/shortcut": {"hash_only": True}}
@@ -523,6 +534,27 @@ def run_shard(ctx):
                 a, b = (broken, full) if broken_side == "old" else (full, broken)
                 got = run_diff(a, b, with_unknown=True, **mo)
                 seen[mname] = sorted(ch_key(c) for c in got if c.typ == "unknown")
+                # absolute rule: whatever is not below the unloadable directory is comparable and must be compared (C08: classified exactly
+                # as a key-by-key comparison would) - one directory that cannot be read must not make its siblings "unknown"
+                stray = [k for k in seen[mname] if k[:1] != (top,)]
+                res.count("unknown_diff_outside_keys_judged", len(outside))
+                if stray:
+                    res.violation("comparable-key-reported-unknown",
+                                  f"{mname}: with directory {top!r} unloadable on the {broken_side} side, {len(stray)} key(s) outside it are reported 'unknown': {['/'.join(k) for k in stray[:4]]}",
+                                  case=case, detail={"mode": mname, "stray": ["/".join(k) for k in stray], "broken_side": broken_side})
+                if mname == "default":
+                    by = {}
+                    for c in got:
+                        if c.typ != RENAME and ch_key(c) in outside:
+                            by.setdefault(ch_key(c), []).append(c.typ)
+                    for k in outside:
+                        hf, hb = outside[k]
+                        ea, eb = (hb, hf) if broken_side == "old" else (hf, hb)
+                        want = [] if ea == eb else [ADD] if ea is None else [DELETE] if eb is None else [MODIFY]
+                        if [t for t in by.get(k, []) if t != UNCHANGED] != want:
+                            res.violation("sibling-of-unloadable-directory-misclassified",
+                                          f"with directory {top!r} unloadable on the {broken_side} side, key {'/'.join(k)} is reported {by.get(k)} instead of {want}",
+                                          case=case, detail={"key": "/".join(k), "got": by.get(k), "want": want, "broken_side": broken_side})
             res.nontrivial("unknown", broken_side, sorted(k for k, _ in full.iteritems()))
             res.count("keys_reported_unknown", len(seen["default"]))
             if len({tuple(v) for v in seen.values()}) != 1:
